@@ -101,7 +101,7 @@ func Requests(t *rapid.T, regs []rt.Reg, max int) []rt.Req {
 				m = ms[0]
 			}
 		}
-		out = append(out, rt.Req{M: m, P: JoinPath(t, segs)})
+		out = append(out, rt.Req{M: m, P: JoinPath(t, segs), Wire: Wire(t)})
 	}
 	return out
 }
@@ -148,4 +148,10 @@ func WideSet(t *rapid.T) []rt.Reg {
 		regs = append(regs, rt.Reg{M: "GET", R: r.Source()})
 	}
 	return regs
+}
+
+// Wire draws how a request path is spelled on the wire (see rt.Req.Wire): one
+// request in four carries an over-escaped URL.RawPath next to its URL.Path.
+func Wire(t *rapid.T) string {
+	return []string{"", "", "", "", "", "", "all", "even"}[rapid.IntRange(0, 7).Draw(t, "wire")]
 }
